@@ -15,11 +15,13 @@ Does not decide: schedules as such; cancellation of a *waiting* acquirer is outs
 from __future__ import annotations
 
 import ast
-from typing import List, Optional
+from typing import Dict, List, Optional, Tuple
 
 from engines import asyncfacts as af
+from engines import c1516facts as cf
 from engines import pyfacts as pf
-from engines.common import AnalysisError, Ctx
+from engines.common import AnalysisError, Ctx, short
+from engines.inline import inline_methods
 
 META = dict(
     category='other',
@@ -284,40 +286,227 @@ def _ctx_manager(ctx: Ctx, m: pf.Module) -> None:
     ctx.check(ok, 'R4', f'{F}::{CLS}.__call__', f'does not return {CM}(self, weight)', m.path, call.lineno)
 
 
+WEIGHT_SAMPLES = (1, 250, 500, 999, 1000, 1500, 2000, 4000, 8000, 16000)
+
+
+def _strip_int(e: ast.AST) -> ast.AST:
+    while isinstance(e, ast.Call) and isinstance(e.func, ast.Name) and e.func.id == 'int' and len(e.args) == 1 and not e.keywords:
+        e = e.args[0]
+    return e
+
+
+def _weight_relation(fn: pf.FuncDef, a: ast.AST, r: ast.AST):
+    """('same', None) | ('differs', (valuation, va, vr)) | ('unknown', why) for the weight acquired vs the weight released."""
+    a2, r2 = _strip_int(pf.expand_locals(fn, a)), _strip_int(pf.expand_locals(fn, r))
+    if pf.nsrc(a2) == pf.nsrc(r2):
+        # the same expression is evaluated twice: its atoms must not be rebound in between
+        params = {x.arg for x in fn.args.posonlyargs + fn.args.args + fn.args.kwonlyargs}
+        asg = pf.assignments(fn)
+        for nme in pf.names_in(a2):
+            if nme in asg and not (nme in params and len(asg[nme]) == 1):
+                return 'unknown', f'`{nme}` is assigned more than once in the function'
+        attrs = {pf.nsrc(x) for x in ast.walk(a2) if isinstance(x, ast.Attribute)}
+        for x in pf.walk_shallow(fn):
+            if isinstance(x, ast.Attribute) and isinstance(x.ctx, (ast.Store, ast.Del)) and pf.nsrc(x) in attrs:
+                return 'unknown', f'`{pf.nsrc(x)}` is reassigned inside the function'
+        return 'same', None
+    try:
+        d = cf.differing_point(a2, r2, WEIGHT_SAMPLES)
+    except cf.NotArithmetic as e:
+        return 'unknown', f'`{e}` is not an integer expression over names'
+    if d is not None:
+        return 'differs', d
+    return 'unknown', f'`{pf.nsrc(a2)}` and `{pf.nsrc(r2)}` agree on all sampled weights but are written differently'
+
+
+def _manual_site(ctx: Ctx, m: pf.Module, fn: pf.FuncDef, q: str, S: str, orig: pf.Module) -> Tuple[int, int]:
+    """Manual `await S.acquire(w)` ... `S.release(w)` in one function: on EVERY exit reached after the acquire completed (normal, exception,
+    cancellation at any later await) exactly one release of the same weight; no release unless an acquire completed."""
+    cfg = pf.cfg(fn)
+    base = f'{m.rel}::{q}::manual {S}.acquire/release'
+
+    def acq_call(n: pf.Node) -> Optional[ast.Call]:
+        a = n.ast
+        if n.kind == 'stmt' and isinstance(a, ast.Expr) and isinstance(a.value, ast.Await) and isinstance(a.value.value, ast.Call) \
+                and pf.dotted(a.value.value.func) == f'{S}.acquire':
+            return a.value.value
+        return None
+
+    def rel_call(n: pf.Node) -> Optional[ast.Call]:
+        a = n.ast
+        if n.kind == 'stmt' and isinstance(a, ast.Expr) and isinstance(a.value, ast.Call) and pf.dotted(a.value.func) == f'{S}.release':
+            return a.value
+        return None
+    # every textual acquire/release of S in the function must be one of these two statement forms
+    for c in pf.calls_in(fn):
+        d = pf.dotted(c.func)
+        if d in (f'{S}.acquire', f'{S}.release'):
+            holders = [n for n in cfg.nodes if n.ast is not None and (acq_call(n) is c or rel_call(n) is c)]
+            if not holders and d.endswith('.acquire'):
+                par = m.parents()
+                if not isinstance(par.get(c), ast.Await):
+                    ctx.bad('R4', base + '::awaited', f'`{pf.nsrc(c)}` is not awaited: the coroutine never runs, nothing is acquired and the job runs outside the '
+                            f'semaphore (more than the capacity can run at once)', m.path, c.lineno)
+                    continue
+            ctx.need(holders, f'{base}: `{pf.nsrc(c)}` is not a plain `await {S}.acquire(w)` / `{S}.release(w)` statement')
+    P = cf.pairing(cfg, lambda n: acq_call(n) is not None, lambda n: rel_call(n) is not None)
+    if not P.acquires and not P.releases:
+        return 0, 0
+    ctx.need(P.acquires, f'{base}: {S}.release(...) in a function that never acquires (pairing across functions is not analysed)')
+    a0 = acq_call(P.acquires[0])
+    assert a0 is not None
+    ctx.need(all(len(acq_call(a).args) == 1 and not acq_call(a).keywords for a in P.acquires), f'{base}: acquire is not called with exactly the weight')  # type: ignore[union-attr]
+    wsrc = pf.nsrc(a0.args[0])
+    line = P.acquires[0].lineno
+    # (1) every exit after a completed acquire releases
+    leaks: List[str] = []
+    for a, p in P.leak_paths:
+        labs = []
+        for x, y in zip(p, p[1:]):
+            lab = [l for mm, l in x.succ if mm is y]
+            labs.append(lab[0] if lab else '')
+        excs = [(x, y) for x, y, l in zip(p, p[1:], labs) if l == 'exc' and x.ast is not None]
+        # the decisive raise: the first exceptional edge after which no release is reachable any more
+        dec = [x for x, y in excs if not any(r.id in cfg.reachable_from(y) or r is y for r in P.releases)]
+        how = 'the normal completion of the function' if not excs else f'the exit taken when `{cf.describe_path([(dec or [excs[-1][0]])[0]], 1).strip("`")}` raises (or is cancelled)'
+        leaks.append(f'{how} does not pass `{S}.release(...)` (path: ... {cf.describe_path(p)})')
+    esc = []
+    for a, n in P.leak_escapes:
+        t = n.text() if n.kind in ('with', 'loop', 'test') else pf.nsrc(n.ast)
+        if t not in esc:
+            esc.append(t)
+    if esc:
+        leaks.append(f'{len(esc)} statement(s) executed while the weight is held can raise outside any try/finally (e.g. `{short(esc[0], 70)}`'
+                     + (', a cancellation point' if 'await' in esc[0] else '') + ') and leave the function without releasing')
+    if not P.releases:
+        leaks = [f'the function never calls `{S}.release(...)`']
+    ctx.check(not leaks, 'R4', base + '::every exit releases',
+              f'after `await {S}.acquire({wsrc})` completed, ' + '; '.join(leaks[:2]) + f': the job is over but the semaphore\'s value stays short by {wsrc} for good - '
+              'a waiter at the head of the queue stays blocked although the capacity it needs is free (liveness)', m.path, line)
+    # (2) release only after a completed acquire
+    msg = ''
+    if P.release_after_failed_acquire is not None:
+        msg = (f'`{S}.release(...)` is reached when `await {S}.acquire({wsrc})` did NOT complete (the acquire sits inside the try whose finally/handler releases): a job cancelled '
+               f'while queued releases {wsrc} it never held - value exceeds the capacity and later jobs are granted more CPU than the worker has (safety)')
+    elif P.release_without_acquire is not None:
+        msg = (f'`{S}.release(...)` is reachable without any acquire (path: ... {cf.describe_path(P.release_without_acquire)}): value exceeds the capacity and '
+               'later jobs are granted more CPU than the worker has (safety)')
+    elif P.reacquire is not None:
+        msg = f'a second `await {S}.acquire(...)` is reached while the first weight is still held'
+    if P.releases:
+        ctx.check(not msg, 'R4', base + '::release only after a completed acquire', msg, m.path, P.releases[0].lineno)
+        # (3) once
+        ctx.check(P.double_release is None, 'R4', base + '::released once',
+                  f'one exit releases twice (`{P.double_release[0].text()}` at line {P.double_release[0].lineno} and again at line {P.double_release[1].lineno}): '  # type: ignore[index]
+                  'value exceeds the capacity (safety)' if P.double_release else '', m.path, P.releases[0].lineno)
+        # (4) same weight
+        seen = set()
+        for r in P.releases:
+            rc = rel_call(r)
+            assert rc is not None
+            if id(rc) in seen:
+                continue
+            seen.add(id(rc))
+            ctx.need(len(rc.args) == 1 and not rc.keywords, f'{base}: release is not called with exactly the weight')
+            for a in P.acquires[:1]:
+                rel, wit = _weight_relation(fn, a0.args[0], rc.args[0])
+                cons = base + f'::same weight `{pf.nsrc(rc.args[0])}`'
+                if rel == 'same':
+                    ctx.ok('R4', cons, wsrc)
+                elif rel == 'differs':
+                    env, va, vr = wit
+                    ctx.bad('R4', cons, f'acquires `{wsrc}` but releases `{pf.nsrc(rc.args[0])}`: with {", ".join(f"{k} = {v}" for k, v in env.items())} the job takes {va} and gives back {vr}: '
+                            + ('capacity leaks with every job until waiters that fit the idle worker stay blocked (liveness)' if vr < va else
+                               'value grows beyond the capacity and jobs are over-granted (safety)'), m.path, r.lineno)
+                else:
+                    raise AnalysisError(f'{cons}: cannot decide whether the released weight equals the acquired one ({wit})')
+    return len(P.acquires), len({id(rel_call(r)) for r in P.releases})
+
+
 def _worker_uses(ctx: Ctx) -> None:
-    m = pf.load(WK)
-    par = m.parents()
+    roots = ['batch/batch/worker'] if ctx.tier != 'thorough' else ['batch/batch']
+    files = [f for f in pf.walk_py(roots) if f != F]
+    ctx.need(WK in files, f'{WK} not found')
     n_with = 0
-    for n in ast.walk(m.tree):
-        if not (isinstance(n, ast.Attribute) and n.attr == 'cpu_sem'):
+    n_manual = 0
+    n_ctor = 0
+    for rel in files:
+        m = pf.load(rel)
+        if 'cpu_sem' not in m.src:
             continue
-        fn = m.enclosing_func(n)
-        q = m.qualname(fn) if fn is not None else '<module>'
-        p = par.get(n)
-        line = n.lineno
-        if isinstance(n.ctx, ast.Store):
-            val = getattr(p, 'value', None)
-            cons = f'{WK}::{q}::{pf.nsrc(p)}'
-            ctx.need(isinstance(val, ast.Call), f'{cons}: cpu_sem is not assigned from a constructor call')
-            ctx.check(pf.dotted(val.func) == CLS and len(val.args) == 1, 'R4', cons,
-                      f'cpu_sem is built by `{pf.nsrc(val)}`, not by {CLS}(capacity): the analysed semaphore is not the one in use', m.path, line)
-        elif isinstance(p, ast.Call) and p.func is n:
-            item = par.get(p)
-            stmt = par.get(item) if item is not None else None
-            cons = f'{WK}::{q}::{pf.nsrc(p)}'
-            if isinstance(item, ast.withitem) and item.context_expr is p and isinstance(stmt, ast.AsyncWith):
-                ctx.check(len(p.args) == 1 and not p.keywords, 'R4', cons, 'cpu_sem(...) is not called with exactly the weight', m.path, line)
-                n_with += 1
+        par = m.parents()
+        manual: Dict[int, Tuple[pf.FuncDef, str, set]] = {}
+        for n in ast.walk(m.tree):
+            if not (isinstance(n, ast.Attribute) and n.attr == 'cpu_sem'):
+                continue
+            fn = m.enclosing_func(n)
+            q = m.qualname(fn) if fn is not None else '<module>'
+            p = par.get(n)
+            line = n.lineno
+            if isinstance(n.ctx, ast.Store):
+                val = getattr(p, 'value', None)
+                cons = f'{rel}::{q}::{pf.nsrc(p)}'
+                ctx.need(isinstance(val, ast.Call), f'{cons}: cpu_sem is not assigned from a constructor call')
+                ctx.check(pf.dotted(val.func) == CLS and len(val.args) == 1, 'R4', cons,
+                          f'cpu_sem is built by `{pf.nsrc(val)}`, not by {CLS}(capacity): the analysed semaphore is not the one in use', m.path, line)
+                n_ctor += 1
+            elif isinstance(p, ast.Call) and p.func is n:
+                item = par.get(p)
+                stmt = par.get(item) if item is not None else None
+                cons = f'{rel}::{q}::{pf.nsrc(p)}'
+                if isinstance(item, ast.withitem) and item.context_expr is p and isinstance(stmt, ast.AsyncWith):
+                    ctx.check(len(p.args) == 1 and not p.keywords, 'R4', cons, 'cpu_sem(...) is not called with exactly the weight', m.path, line)
+                    n_with += 1
+                elif isinstance(item, ast.Expr) or (isinstance(item, ast.withitem) and isinstance(stmt, ast.With)):
+                    ctx.bad('R4', cons, f'`{pf.nsrc(p)}` is not the context expression of an `async with`: nothing is acquired / the acquired CPU is not released on every exit',
+                            m.path, line)
+                else:
+                    raise AnalysisError(f'{cons}: the context manager is not entered by `async with` directly (indirect entering is not analysed)')
+            elif isinstance(p, ast.Attribute) and p.value is n and p.attr == 'value':
+                cons = f'{rel}::{q}::{pf.nsrc(p)}'
+                ctx.check(isinstance(p.ctx, ast.Load) and not isinstance(par.get(p), ast.AugAssign), 'R4', cons,
+                          'the worker writes the semaphore counter directly: capacity is taken or returned behind the queue (a grant that overtakes the waiters / a value '
+                          'no release accounts for)', m.path, line)
+            elif isinstance(p, ast.Attribute) and p.value is n and p.attr == 'queue':
+                up = par.get(p)
+                cons = f'{rel}::{q}::{pf.nsrc(up) if up is not None else pf.nsrc(p)}'
+                mutating = isinstance(p.ctx, (ast.Store, ast.Del)) or (isinstance(up, ast.Attribute) and up.value is p and isinstance(par.get(up), ast.Call)
+                                                                      and up.attr not in ('copy', 'count', 'index', '__len__'))
+                ctx.check(not mutating, 'R2', cons, 'the worker manipulates the waiter queue of the semaphore directly: waiters are dropped or reordered outside acquire/release',
+                          m.path, line)
+            elif isinstance(p, ast.Attribute) and p.value is n and p.attr in ('acquire', 'release') and isinstance(par.get(p), ast.Call) and par[p].func is p:
+                ctx.need(fn is not None, f'{rel}: {pf.nsrc(par[p])} at module level')
+                manual.setdefault(id(fn), (fn, q, set()))[2].add(pf.nsrc(n))  # type: ignore[arg-type]
             else:
-                ctx.bad('R4', cons, f'`{pf.nsrc(p)}` is not the context expression of an `async with`: the acquired CPU is not released on every exit',
-                        m.path, line)
-        elif isinstance(p, ast.Attribute) and p.value is n and p.attr == 'value':
-            cons = f'{WK}::{q}::{pf.nsrc(p)}'
-            ctx.check(isinstance(p.ctx, ast.Load) and not isinstance(par.get(p), ast.AugAssign), 'R4', cons,
-                      'the worker writes the semaphore counter directly', m.path, line)
-        else:
-            raise AnalysisError(f'{WK}::{q}: unrecognised use of cpu_sem: `{pf.nsrc(p) if p is not None else pf.nsrc(n)}` (manual acquire/release pairing is not analysed)')
+                raise AnalysisError(f'{rel}::{q}: unrecognised use of cpu_sem: `{pf.nsrc(p) if p is not None else pf.nsrc(n)}` (aliasing / handing over the semaphore is not analysed)')
+        covered: set = set()
+        pending = []
+        for fn, q, recvs in manual.values():
+            ctx.need(len(recvs) == 1, f'{rel}::{q}: the semaphore is reached through several expressions {sorted(recvs)}')
+            S = next(iter(recvs))
+            # acquire and release not both in this function: analyse it with its same-class helpers inlined (a release moved into a helper method)
+            fn2, m2 = fn, m
+            names = {pf.dotted(c.func) for c in pf.calls_in(fn)}
+            if not {f'{S}.acquire', f'{S}.release'} <= names and f'{S}.acquire' in names and '.' in q:
+                cname = q.rsplit('.', 2)[-2]
+                try:
+                    m2, il = inline_methods(m, cname, fn.name)
+                    fn2 = m2.func(q)
+                    covered |= {f'{q.rsplit(".", 1)[0]}.{h}' for h, _ in il.inlined}
+                except AnalysisError:
+                    fn2, m2 = fn, m
+            pending.append((fn2, m2, q, S))
+        for fn2, m2, q, S in pending:
+            has_acq = any(pf.dotted(c.func) == f'{S}.acquire' for c in pf.calls_in(fn2))
+            if not has_acq and q in covered:
+                continue  # a helper whose body was analysed inside its caller
+            na, nr = _manual_site(ctx, m2, fn2, q, S, m)
+            n_manual += na
     ctx.unit('worker_async_with_sites', n_with)
+    if n_manual:
+        ctx.unit('worker_manual_sites', n_manual)
+    ctx.need(n_ctor >= 1, 'the construction of cpu_sem was not found')
+    ctx.need(n_with + n_manual >= 2, f'only {n_with + n_manual} acquisition site(s) of cpu_sem found under {roots} (DockerJob.run and JVMJob.run expected)')
 
 
 def _cancel_info(ctx: Ctx, m: pf.Module, cls: ast.ClassDef) -> None:
